@@ -66,11 +66,14 @@ func c06(r *core.Run) {
 
 	r.Rule("R5", "group tag resolution: the index stored for a ${tag} of a group template is the position of a token of the split pattern that is equal (whole-token string equality) to \"$\"+tag, found by a loop over the token list; a substring search would also hit a longer placeholder that merely starts with the tag ($id in $idx) or a literal token", 1)
 
+	r.Rule("R6", "lookup is a pure read: no function reachable from Mux.GetHandler stores to a field or element of the Mux / trie node / registered handler, updates one of their maps, or appends to (re-slices and extends) a slice held in them; lookups run concurrently on the listener goroutine and on any goroutine calling With / Resource, so scratch state kept in the Mux would mix the tokens of two names", 1)
+
 	root := p.FuncsOfPkg("")
 	ro := resolveMuxRoles(r)
 	if ro == nil {
 		return
 	}
+	c06PureLookup(r)
 	c06GroupTags(r, root, ro)
 	mn := ro.matchNode
 	nodeNodes, nodeParam, nodeWild := ro.nodeNodes, ro.nodeParam, ro.nodeWild
@@ -855,4 +858,88 @@ func valueRoot(v ssa.Value) ssa.Value {
 		}
 	}
 	return v
+}
+
+// c06PureLookup is rule R6.
+func c06PureLookup(r *core.Run) {
+	p := r.P
+	gh := methodNamed(p, "", "Mux", "GetHandler")
+	if gh == nil {
+		r.Unres("R6", "Mux.GetHandler", "missing")
+		return
+	}
+	shared := map[string]bool{"Mux": true, "node": true, "regHandler": true, "Service": true}
+	// the lookup call tree (static callees in the root package, closures included)
+	seen := map[*ssa.Function]bool{}
+	var tree []*ssa.Function
+	var walk func(f *ssa.Function)
+	walk = func(f *ssa.Function) {
+		if f == nil || seen[f] || len(f.Blocks) == 0 || f.Pkg != gh.Pkg {
+			return
+		}
+		seen[f] = true
+		tree = append(tree, f)
+		for _, a := range f.AnonFuncs {
+			walk(a)
+		}
+		for _, c := range core.Calls(f) {
+			walk(c.Common().StaticCallee())
+		}
+	}
+	walk(gh)
+	// fromShared: v is (a re-slice / phi of) a value loaded from a field of a shared struct
+	var fromShared func(v ssa.Value, d int) (string, bool)
+	fromShared = func(v ssa.Value, d int) (string, bool) {
+		if d > 6 || v == nil {
+			return "", false
+		}
+		v = core.Strip(v)
+		if f, ok := core.LoadedField(v); ok && shared[f.Struct] {
+			return f.String(), true
+		}
+		switch x := v.(type) {
+		case *ssa.Slice:
+			return fromShared(x.X, d+1)
+		case *ssa.Phi:
+			for _, e := range x.Edges {
+				if e == v {
+					continue
+				}
+				if s, ok := fromShared(e, d+1); ok {
+					return s, true
+				}
+			}
+		}
+		return "", false
+	}
+	n := 0
+	for _, fn := range tree {
+		for _, b := range fn.Blocks {
+			for _, in := range b.Instrs {
+				n++
+				switch x := in.(type) {
+				case *ssa.Store:
+					if f, ok := core.FieldOf(x.Addr); ok && shared[f.Struct] {
+						r.Bad("R6", core.FuncName(fn), "no-store-to("+f.String()+")", p.InstrPos(x), "the lookup path writes "+f.String()+": concurrent lookups race on it")
+					}
+					if ia, ok := x.Addr.(*ssa.IndexAddr); ok {
+						if s, ok := fromShared(ia.X, 0); ok {
+							r.Bad("R6", core.FuncName(fn), "no-element-store-into("+s+")", p.InstrPos(x), "the lookup path overwrites an element of "+s)
+						}
+					}
+				case *ssa.MapUpdate:
+					if s, ok := fromShared(x.Map, 0); ok {
+						r.Bad("R6", core.FuncName(fn), "no-map-update-of("+s+")", p.InstrPos(x), "the lookup path updates the map "+s)
+					}
+				case *ssa.Call:
+					if core.CalleeName(x) == "builtin:append" {
+						if s, ok := fromShared(x.Call.Args[0], 0); ok {
+							r.Bad("R6", core.FuncName(fn), "no-append-into("+s+")", p.InstrPos(x), "the lookup path appends into the backing array of "+s+" (a scratch buffer kept in shared state): two concurrent lookups overwrite each other's tokens, so params, group and even the matched handler can belong to another name")
+						}
+					}
+				}
+			}
+		}
+	}
+	r.OK("R6", core.FuncName(gh), "lookup-tree-writes-no-shared-state", p.Pos(gh.Pos()), fmt.Sprintf("%d functions, %d instructions reachable from the lookup entry point scanned", len(tree), n))
 }
